@@ -166,6 +166,12 @@ def run_property(prop, title, obligations, prog, tier, explanation, assumptions,
             violations.extend(real)
         lines.append(f"{'OK ' if not real else 'BAD'} {prop} {ob.id} [{ob.instances} instance(s), {ob.wall:.2f}s] {ob.title}")
     os.makedirs(os.path.join(EVID, "replay"), exist_ok=True)
+    for old_ in os.listdir(os.path.join(EVID, "replay")):  # the replay files of a property are those of its last run
+        if old_.startswith(prop + "-") and old_.endswith(".json"):
+            try:
+                os.remove(os.path.join(EVID, "replay", old_))
+            except OSError:
+                pass
     for i, f in enumerate(violations):
         path = os.path.join(EVID, "replay", f"{prop}-{i}.json")
         with open(path, "w") as fh:
